@@ -35,7 +35,11 @@ func payFaults() []payFault {
 		pf("str-empty", L(Sym("str"), Str(""))),
 		pf("strs-0", L(Sym("strs"), L())),
 		pf("strs-1", L(Sym("strs"), Strs([]string{"a"}))),
+		pf("strs-2", L(Sym("strs"), Strs([]string{"a", "b"}))),
 		pf("strs-3", L(Sym("strs"), Strs([]string{"a", "b", "c"}))),
+		pf("strs-4", L(Sym("strs"), Strs([]string{"a", "b", "c", "d"}))),
+		pf("mark-2", L(Sym("mark"), Str("m"), L(L(Str("f"), Str("e")), L(Str("g"), Str(""))))),
+		pf("tags-2", L(Sym("tags"), L(L(Str("k"), Str("v")), L(Str("k"), Str("w"))))),
 		pf("errno", L(Sym("errno"), Nat(2), Str("linux:amd64"), Nat(0), Nat(0), Nat(1), Nat(0), Nat(0))),
 		pf("errno-otherarch", L(Sym("errno"), Nat(2), Str("plan9:mips"), Nat(0), Nat(0), Nat(1), Nat(0), Nat(0))),
 		pf("mark-empty", L(Sym("mark"), Str(""), L())),
@@ -53,7 +57,7 @@ func payFaults() []payFault {
 	}
 }
 
-var repFaults = [][]string{nil, {"r1"}, {"r1", "r2", "r3"}}
+var repFaults = [][]string{nil, {"r1"}, {"r1", "r2"}, {"r1", "r2", "r3"}}
 var mtFaults = []int{0, 1, 7}
 
 type c05Shape int
@@ -86,7 +90,9 @@ func position(pos int, w SX) SX {
 	switch pos {
 	case 1: // under a known wrapper
 		return L(Sym("W"), Str(""), hintDet, Nat(0), L(), w)
-	case 2: // branch of a multi-cause error
+	case 2: // branch of a multi-cause error of a type nobody knows
+		return L(Sym("L"), Str("multi"), L(Sym("D"), Str("x/*x.UnkMulti"), Str("x/*x.UnkMulti"), Str(""), L(), L(Sym("none"))), L(), L(simpleLeafSX("first"), w))
+	case 5: // branch of a Join
 		return L(Sym("L"), Str(""), L(Sym("D"), Str(joinKey), Str(joinKey), Str(""), L(), L(Sym("none"))), L(), L(simpleLeafSX("first"), w))
 	case 3: // hidden behind a barrier
 		return L(Sym("L"), Str("masked"), L(Sym("D"), Str(barrierKeyS), Str(barrierKeyS), Str(""), L(), L(Sym("none"))), L(w), L())
@@ -207,7 +213,7 @@ func runC05(res *Result, tier string, seed uint64, driver string) {
 	}
 	positions := []int{0}
 	if tier == "thorough" {
-		positions = []int{0, 1, 2, 3, 4}
+		positions = []int{0, 1, 2, 3, 4, 5}
 	}
 	var cases []*Case
 	id := 0
@@ -223,7 +229,12 @@ func runC05(res *Result, tier string, seed uint64, driver string) {
 						// quick tier: also sample the non-root positions
 						p := pos
 						if tier != "thorough" && rng.Intn(4) == 0 {
-							p = 1 + rng.Intn(4)
+							p = 1 + rng.Intn(5)
+						}
+						if p == 5 && pf.name == "str-empty" {
+							// Join prints its branches through the formatting engine: an empty branch text is
+							// outside the domain of the model's text function (engine model: C09)
+							p = 2
 						}
 						w := position(p, faultWire(k.key, k.shape, pf, rep, mt))
 						c := &Case{ID: fmt.Sprintf("f%d", id), Cmd: L(Sym("decode"), w),
@@ -290,7 +301,7 @@ func runC05(res *Result, tier string, seed uint64, driver string) {
 	}
 	res.Extra = map[string]interface{}{"registered_keys": regs, "keys_faulted": all,
 		"payload_faults": len(payFaults()), "detail_faults": len(repFaults), "message_types": mtFaults, "positions": positions}
-	res.Rule = "fault matrix: every type key registered with a leaf/wrapper/multi-cause decoder (read from the live registries through the verif hook) + one unregistered key, each as leaf / wrapper / multi-cause node × 20 payload faults × 3 detail faults × message types {0,1,7} × carrier positions; every wire goes through proto.Marshal/Unmarshal; distinct = distinct wire"
+	res.Rule = "fault matrix: every type key registered with a leaf/wrapper/multi-cause decoder (read from the live registries through the verif hook) + one unregistered key, each as leaf / wrapper / multi-cause node × 25 payload faults × 4 detail faults × message types {0,1,7} × carrier positions; every wire goes through proto.Marshal/Unmarshal; distinct = distinct wire"
 	for i := 0; i < 3 && i < len(cases); i++ {
 		s := cases[(i*7919)%len(cases)].Cmd.String()
 		if len(s) > 500 {
